@@ -255,6 +255,7 @@ static void exec_one(void)
 	env_init();
 	sched_init();
 	sched_on_quiescence = quiescent;
+	sched_fault_eintr = mc_arg_int("eintr", 0);
 	sched_max_points = mc_arg_int("maxpoints", 5000);
 	np = parse_list(mc_arg("progs", "0-8"), pl, 16);
 	nu = parse_list(mc_arg("puts", "0-4"), ul, 8);
